@@ -167,6 +167,44 @@ func execMsgWrite(a []string) string {
 	return "ok " + strings.Join(parts, " ")
 }
 
+// failWriter fails its first Write in the given way (and every later one)
+type failWriter struct {
+	mode string
+	k    int
+}
+
+func (w *failWriter) Write(p []byte) (int, error) {
+	k := w.k
+	if k > len(p) {
+		k = len(p)
+	}
+	switch w.mode {
+	case "eof0":
+		return 0, io.EOF
+	case "err0":
+		return 0, fmt.Errorf("broken pipe")
+	case "eofk":
+		return k, io.EOF
+	case "short":
+		return k, io.ErrShortWrite
+	case "errk":
+		return k, fmt.Errorf("connection reset")
+	}
+	return k, nil // "quiet": fewer bytes than asked for and no error
+}
+
+// msg.wfail <mode> <k> <message 1: 10 fields> <message 2: 10 fields>: message 1 is written to a writer that fails
+// in the given way, then message 2 to a writer that works: what reaches the second writer is message 2, nothing else
+func execMsgWriteAfterFailure(a []string) string {
+	k, _ := strconv.Atoi(a[1])
+	m1 := qnet.Message{Header: parseHeader(a[2:]), Payload: unhx(a[11])}
+	res := "ok"
+	if err := m1.Write(&failWriter{mode: a[0], k: k}); err != nil {
+		res = "err"
+	}
+	return res + " | " + execMsgWrite(a[12:])
+}
+
 // countingReader counts what has been taken from it
 type countingReader struct {
 	r io.Reader
@@ -225,6 +263,7 @@ func init() {
 	executors["msg.read"] = execMsgRead
 	executors["msg.reread"] = execMsgReread
 	executors["msg.write"] = execMsgWrite
+	executors["msg.wfail"] = execMsgWriteAfterFailure
 	runners["C01"] = runC01
 }
 
@@ -516,6 +555,18 @@ func genWriteCase(r *Rand, tier string, o *Out) {
 	p := r.Bytes(payloadLen(r, tier))
 	h.Size = uint32(len(p))
 	class := "P"
+	if r.Chance(25) {
+		// the message before this one went to a writer that failed
+		h1, _ := genHeader(r, true)
+		p1 := r.Bytes(r.Intn(60))
+		h1.Size = uint32(len(p1))
+		mode := []string{"eof0", "err0", "eofk", "short", "errk"}[r.Intn(5)]
+		o.Do(class, fmt.Sprintf("msg.wfail %s %d %d %d %d %d %d %d %d %d %d %s %d %d %d %d %d %d %d %d %d %s", mode, r.Intn(29+len(p1)),
+			h1.Magic, h1.ID, h1.Size, h1.Version, h1.Type, h1.Flags, h1.Service, h1.Object, h1.Action, hx(p1),
+			h.Magic, h.ID, h.Size, h.Version, h.Type, h.Flags, h.Service, h.Object, h.Action, hx(p)), true)
+		o.Count("write:after-a-failed-write:" + mode)
+		return
+	}
 	if r.Chance(15) {
 		h.Size += uint32(1 + r.Intn(3))
 		o.Count("write:size-mismatch")
